@@ -442,6 +442,9 @@ func buildOpts(call Call16, callID string, rec *rec16) []compose.Option {
 		if o.Path != nil {
 			if len(o.Path) == 1 && o.Path2 == nil {
 				opt = opt.DesignateNode(o.Path[0])
+			} else if len(o.Path) == 1 && len(o.Path2) == 1 {
+				// several top-level nodes in one DesignateNode call: one path per key
+				opt = opt.DesignateNode(o.Path[0], o.Path2[0])
 			} else if o.Path2 == nil {
 				opt = opt.DesignateNodeWithPath(compose.NewNodePath(o.Path...))
 			} else {
